@@ -741,7 +741,7 @@ class FnTranslator:
         # (`other.precedence`) or not at all in an addressed expression get no binder of their own
         arg_params = [k for k in self.argnames if k not in inline_defaults and k not in spec.get("drop_args", [])]
         # only_used_args (C04) / prune_args (C01): only the arguments actually used become parameters
-        if not spec.get("only_used_args") and not spec.get("prune_args"):
+        if not spec.get("only_used_args") and not spec.get("prune_args") and not spec.get("prune_params"):
             for k in arg_params:
                 self.param(k)
         if "expr_path" in spec:
